@@ -59,7 +59,7 @@ def power_budget_ok(s):
     or an exponent like `42E4` is a finite but astronomically long loop, which is not what this property is about."""
     import re
     from gens import literal_value
-    if any(len(x) > 3 for x in re.findall(r"\d[eE][+-]?(\d+)", s)):
+    if any(len(x) > 3 for x in re.findall(r"[\d.][eE][+-]?(\d+)", s)):
         return False                           # exponent notation with more than three digits: outside the property's bound
     prod = 1
     bare = 0
@@ -105,7 +105,7 @@ def quantity_expr(rng, V, depth):
     return "(%s) %s (%s)" % (quantity_expr(rng, V, depth - 1), op, quantity_expr(rng, V, depth - 1))
 
 
-def run(rng, tier, model_ok):
+def gen_inputs(rng, tier):
     V = unitlib.vocab()
     n = 500 if tier == "quick" else 12000
     inputs = list(vlib.load_corpus("C11"))
@@ -132,7 +132,11 @@ def run(rng, tier, model_ok):
             inputs.append("%s to %s" % (a, u))
         for f in ("round", "floor", "ceil"):
             inputs.append("%s(%s)" % (f, a))
-    inputs = [s for s in inputs if "\x00" not in s and power_budget_ok(s)]
+    return [s for s in inputs if "\x00" not in s and power_budget_ok(s)]
+
+
+def run(rng, tier, model_ok):
+    inputs = gen_inputs(rng, tier)
     failures = []
     stats = {"inputs": len(inputs), "error_results": 0, "value_results": 0, "panics_debug": 0, "panics_release": 0}
     cases_all = []
